@@ -36,7 +36,7 @@ def c05_runs(tier, scale):
 
 
 # request verbs whose response lines are compared verbatim (everything else: ok-lines verbatim, any err = err)
-EXACT_VERBS = {"sinkwriteall", "rabin", "crc64", "once"}
+EXACT_VERBS = {"sinkwriteall", "rabin", "crc64", "once", "rditems", "rdfile", "wrcheck"}
 
 
 def c13_runs(tier, scale):
@@ -49,6 +49,12 @@ def c03_runs(tier, scale):
     if tier == "thorough":
         return [("c03", [2500 * scale, 40], None) for _ in range(16)]
     return [("c03", [400 * scale, 12], None), ("c03", [200 * scale, 20], None)]
+
+
+def c14_runs(tier, scale):
+    if tier == "thorough":
+        return [("c14", [6 * scale, 1], None) for _ in range(16)]
+    return [("c14", [4 * scale, 0], None), ("c14", [4 * scale, 0], None)]
 
 
 PROPS = {
@@ -150,5 +156,23 @@ PROPS = {
         "trusted_base": DATUM_TB + ["compression codecs are a parameter of the model (files are compared after the harness decompressed each block with the crate's own codec)",
                                     "header metadata order (a HashMap) is compared as a set"],
         "assumptions": ["perfect sink (sink faults are C13)"],
+    },
+    "C14": {
+        "lean_modules": ["AvroProofs.C14"],
+        "theorems": ["Avro.C14.cut_on_boundary", "Avro.C14.cut_inside_block", "Avro.C14.marker_corrupt", "Avro.C14.magic_corrupt",
+                     "Avro.C14.varint_cut_is_eof"],
+        "partial": [
+            {"theorem": "cut inside the header / header metadata",
+             "excluded_by": "proved for the magic only; every other offset of the header is decided by the correspondence run (real Reader and model on every cut)"},
+        ],
+        "harness": c14_runs,
+        "projection": "okerr",
+        "nontrivial": lambda l: True,
+        "rule": "container files written by the real Writer (block partitions with counts needing 1 and 2 varint bytes; zero-width, fixed-width and "
+                "variable-width items; fixed + generated schemas; all six codecs) cut at EVERY byte offset (null codec; around every boundary + sampled "
+                "for the others in the quick tier), and every byte of the magic, of the header marker and of every block marker altered; each case through "
+                "the real Reader (oracle) and, for the null codec, through the model reader (exact diff); distinct = distinct request lines",
+        "trusted_base": DATUM_TB + ["std Read::read_exact semantics are modelled (takeExact)"],
+        "assumptions": [],
     },
 }
